@@ -11,3 +11,18 @@ CHECKS = {
 }
 
 NOT_BUILT = {}
+
+CHECKS["C01"] = dict(
+    level="exploration",
+    technique="property-based differential testing: generated programs over the public API (Hypothesis, constructive generator) vs the same program evaluated by NumPy",
+    text="Programs (DAGs of up to 6 operations from a 160-entry table of public functions/operators over 1-3 inputs with independent chunkings, all dtypes, size-0/size-1 dims) are computed under a drawn executor (task-order-permuting sequential, single-threaded, threads, processes) with optimization on/off and compared with NumPy output by output; failures are bucketed by the earliest wrong node and shrunk. Exploration: the space is unbounded, sizes are bounded (sides <= 12, <= 4 dims).",
+    design_ref="DESIGN.md section 3 C01",
+    note="Trusted: NumPy as reference, Hypothesis, zarr. dtype is not compared (C12). Float comparisons exact where results are exactly representable, stated tolerances otherwise; discontinuous functions of inexact values are not compared.",
+)
+CHECKS["C17"] = dict(
+    level="exploration",
+    technique="property-based testing: generated NumPy-valid programs, phase-separated execution (build / plan+validate / execute behind a recording executor), classification of exception type and phase",
+    text="Every generated program is NumPy-valid by construction; cubed must either succeed or raise ValueError/TypeError/NotImplementedError/IndexError while building or planning. Any other exception type before execution, and any exception after the executor was entered (fault-free in-memory storage), is a violation; buckets are keyed by phase, exception, innermost cubed frame / failing operation and a root-cause predicate.",
+    design_ref="DESIGN.md section 3 C17",
+    note="Trusted: the phase boundary is observed with a recording executor wrapper; storage is fault-free MemoryStore. Known findings are listed in KNOWN_FINDINGS.txt.",
+)
